@@ -28,6 +28,11 @@ for _nl, _t in ((3, ("quick", "thorough")), (4, ("thorough",)), (5, ("thorough",
         name="C09 the same querier proves exit roots against two successive L1 info roots of a %d-leaf tree (possibly the same exit root twice): each proof verifies against the root asked for" % _nl,
         harness=F + "ZZVerif_C09_TwoRoots", params={"NL": _nl}, tiers=_t, reach=["both", "same exit root twice"], time_limit_s=1500,
         bounds="every pair of roots (a < b), every pair of leaves under them, all leaf contents"))
+for _nl, _t in ((3, ("quick", "thorough")), (5, ("thorough",))):
+    OBLIGATIONS.append(dict(
+        name="C09 the same querier asked twice for the latest finalized L1 info root of a %d-leaf tree while the syncer catches up: each answer reflects the state at the time of the question" % _nl,
+        harness=F + "ZZVerif_C09_FinalizedRootTwice", params={"NL": _nl}, tiers=_t, reach=["both"], time_limit_s=1500,
+        bounds="every non-decreasing pair of finalized blocks and of processed blocks, all leaf contents"))
 ASSUMPTIONS = ["the L1 info tree syncer answers as C08/C11 establish for the real one (fake in the harness: proofs computed by a reference Merkle routine)",
                "each claim was accepted by the L2 bridge contract (its proofs lead to the exit roots of the L1 info leaf whose global exit root it names)",
                "Keccak as uninterpreted function; global exit roots pairwise distinct", "block hash as uninterpreted function of the header"]
